@@ -103,7 +103,7 @@ def build_coq():
 def build_driver():
     with Lock("driver"):
         drv = os.path.join(BUILD, "driver", "model_driver")
-        src = [os.path.join(COQ, "model.ml"), os.path.join(VERIF, "driver", "main.ml")]
+        src = [os.path.join(COQ, "model.ml"), os.path.join(VERIF, "driver", "main.ml"), os.path.join(VERIF, "driver", "util.ml")] + [os.path.join(VERIF, "driver", f) for f in os.listdir(os.path.join(VERIF, "driver")) if f.startswith("cmd_")]
         if os.path.exists(drv) and all(os.path.getmtime(s) <= os.path.getmtime(drv) for s in src):
             return drv
         run(["sh", os.path.join(VERIF, "driver", "build.sh")])
